@@ -13,6 +13,21 @@ theorem packTLV_ok (t : Tag) (ht : t.WF) (c : Bytes) : packTLV t c = .ok (tlv t 
   have : ¬ t.cls > 3 := by have := ht.1; omega
   simp [this]
 
+theorem identifierOctets_ne_nil (t : Tag) : identifierOctets t ≠ [] := by
+  unfold identifierOctets; simp only; split <;> simp
+
+theorem tlv_ne_nil (t : Tag) (c : Bytes) : tlv t c ≠ [] := by
+  intro h
+  have := congrArg List.length h
+  simp only [tlv, List.length_append, List.length_nil] at this
+  have h1 : 0 < (identifierOctets t).length := List.length_pos_iff.mpr (identifierOctets_ne_nil t)
+  omega
+
+theorem truthy_tlv (t : Tag) (c : Bytes) : (tlv t c).isEmpty = false := by
+  cases h : tlv t c with
+  | nil => exact absurd h (tlv_ne_nil t c)
+  | cons x xs => rfl
+
 theorem tlv_length (t : Tag) (c : Bytes) : (tlv t c).length = headerLen t c.length + c.length := by
   simp [tlv, headerLen, Nat.add_assoc]
 
